@@ -118,6 +118,23 @@ Section Machine.
   Definition solo (i : tid) (n : nat) (g : global) : global := run (repeat i n) g.
 
   Definition count (i : tid) (sch : list tid) : nat := length (filter (Nat.eqb i) sch).
+
+  (* The same machine with the thread component of the key computed from the thread by `ident`.
+     `step` is `step_by (fun i => i)`: the key holds the Thread object (tools.py:353
+     threading.current_thread()), which the dict keeps alive, so it is never the key component of any other
+     thread, dead or alive.  A number that the OS hands out again after a thread has exited (pthread ident,
+     threading.get_ident()) is an `ident` that is not injective over the threads of a process' lifetime. *)
+  Definition step_by (ident : tid -> nat) (i : tid) (g : global) : global :=
+    let l := g_loc g i in
+    let rq := next_request (g_ro g) l in
+    let '(d', rs) := serve (ident i) rq (g_dedup g) in
+    mkG (g_ro g) (upd i (advance (g_ro g) l rs) (g_loc g)) d'.
+
+  Fixpoint run_by (ident : tid -> nat) (sch : list tid) (g : global) : global :=
+    match sch with
+    | [] => g
+    | i :: r => run_by ident r (step_by ident i g)
+    end.
 End Machine.
 
 Arguments mkG {RO local}.
@@ -128,6 +145,8 @@ Arguments upd {local}.
 Arguments step {RO local}.
 Arguments run {RO local}.
 Arguments solo {RO local}.
+Arguments step_by {RO local}.
+Arguments run_by {RO local}.
 
 (* ------------------------------------------------------------------------------------------- *)
 (* Part 2 — what asynq keeps per thread, driven by a small op language                           *)
@@ -140,20 +159,26 @@ Inductive ctx := CNone | CLog (cid : Z) | COv (v : Z).  (* no context / logging 
 Inductive comp :=
 | Node (n : Z) (c : ctx) (ch : list comp)     (* with c: rs = yield [children...]; return rs           *)
 | Leaf (n : Z) (c : ctx) (kind key : Z)       (* with c: v = yield DebugBatchItem(kind, key); return v *)
-| DLeaf (kind key : Z).                       (* the @deduplicate()d function dleaf(kind, key)         *)
+| DLeaf (kind key : Z)                        (* the @deduplicate()d function dleaf(kind, key)         *)
+| Spec (kind key : Z).                        (* as a child: the parent calls dleaf.asynq(kind, key) and does NOT
+                                                 yield the task (created speculatively, never awaited here): its
+                                                 entry stays in DeduplicateDecorator.tasks, tools.py:357-383 *)
 
 Inductive op :=
 | OItem (kind key : Z)      (* DebugBatchItem(kind, key) outside any task                    *)
 | OFlush (kind : Z)         (* flush the thread's current batch of that kind, if it has items *)
 | ORun (c : comp)           (* root(...).value()                                              *)
 | OProf                     (* profiler.flush()                                               *)
+| OPReset                   (* profiler.reset()                                               *)
+| OSpec (kind key : Z)      (* dleaf.asynq(kind, key) outside any task, never awaited: the thread may
+                               even exit with the entry still in the shared dict               *)
 | OSched                    (* str(get_scheduler()), get_active_task()                        *)
 | OReset                    (* asynq.scheduler.reset()                                        *)
 | OAio (v : Z)              (* asyncio.run(fn.asyncio(v)): is_asyncio_mode() inside / after   *)
 | OFinal.                   (* end of program: which top-level items are computed             *)
 
 Inductive rv := RInt (z : Z) | RList (l : list rv).
-Inductive pentry := PTask (id : Z) | PBatch.
+Inductive pentry := PTask (t : tname) (id : Z) | PBatch.   (* entry of a computed task (its name, its _id) / of a flushed batch *)
 
 Inductive event :=
 | EItem (kind key idx pos id : Z)                      (* batch.index, item.index, item._id        *)
@@ -162,6 +187,8 @@ Inductive event :=
 | EProbe (t : tname) (pt : Z) (active : option tname) (sv : Z)   (* get_active_task(), sv.get() *)
 | ECtx (resume : bool) (cid : Z)
 | EResult (r : rv)
+| ENew (t : tname) (id : Z)                            (* fn.asynq(...) made a new task; its _id (0 without the option) *)
+| EOld (t : tname) (id : Z)                            (* the deduplicated call returned an existing task of this thread *)
 | EProf (l : list pentry)
 | ESched (id ntasks nbatches : Z) (active : option tname)
 | EAio (inside after : bool) (r : Z)
@@ -189,50 +216,53 @@ Record lstate := mkL {
   u_top : list (Z * Z);
   u_hnext : Z;
   u_hand : list (tname * Z);
+  u_pend : list (Z * Z);
   x_out : list event;
   x_log : list response
 }.
 
 Definition set_s_lastid (v : Z) (s : lstate) : lstate :=
-  mkL v (s_active s) (s_batches s) (d_reg s) (p_stats s) (p_counter s) (a_mode s) (u_sv s) (u_ovold s) (u_started s) (u_ids s) (u_flushed s) (u_leafbatch s) (u_vals s) (u_res s) (u_top s) (u_hnext s) (u_hand s) (x_out s) (x_log s).
+  mkL v (s_active s) (s_batches s) (d_reg s) (p_stats s) (p_counter s) (a_mode s) (u_sv s) (u_ovold s) (u_started s) (u_ids s) (u_flushed s) (u_leafbatch s) (u_vals s) (u_res s) (u_top s) (u_hnext s) (u_hand s) (u_pend s) (x_out s) (x_log s).
 Definition set_s_active (v : option tname) (s : lstate) : lstate :=
-  mkL (s_lastid s) v (s_batches s) (d_reg s) (p_stats s) (p_counter s) (a_mode s) (u_sv s) (u_ovold s) (u_started s) (u_ids s) (u_flushed s) (u_leafbatch s) (u_vals s) (u_res s) (u_top s) (u_hnext s) (u_hand s) (x_out s) (x_log s).
+  mkL (s_lastid s) v (s_batches s) (d_reg s) (p_stats s) (p_counter s) (a_mode s) (u_sv s) (u_ovold s) (u_started s) (u_ids s) (u_flushed s) (u_leafbatch s) (u_vals s) (u_res s) (u_top s) (u_hnext s) (u_hand s) (u_pend s) (x_out s) (x_log s).
 Definition set_s_batches (v : list (Z * Z)) (s : lstate) : lstate :=
-  mkL (s_lastid s) (s_active s) v (d_reg s) (p_stats s) (p_counter s) (a_mode s) (u_sv s) (u_ovold s) (u_started s) (u_ids s) (u_flushed s) (u_leafbatch s) (u_vals s) (u_res s) (u_top s) (u_hnext s) (u_hand s) (x_out s) (x_log s).
+  mkL (s_lastid s) (s_active s) v (d_reg s) (p_stats s) (p_counter s) (a_mode s) (u_sv s) (u_ovold s) (u_started s) (u_ids s) (u_flushed s) (u_leafbatch s) (u_vals s) (u_res s) (u_top s) (u_hnext s) (u_hand s) (u_pend s) (x_out s) (x_log s).
 Definition set_d_reg (v : list (Z * (Z * list item))) (s : lstate) : lstate :=
-  mkL (s_lastid s) (s_active s) (s_batches s) v (p_stats s) (p_counter s) (a_mode s) (u_sv s) (u_ovold s) (u_started s) (u_ids s) (u_flushed s) (u_leafbatch s) (u_vals s) (u_res s) (u_top s) (u_hnext s) (u_hand s) (x_out s) (x_log s).
+  mkL (s_lastid s) (s_active s) (s_batches s) v (p_stats s) (p_counter s) (a_mode s) (u_sv s) (u_ovold s) (u_started s) (u_ids s) (u_flushed s) (u_leafbatch s) (u_vals s) (u_res s) (u_top s) (u_hnext s) (u_hand s) (u_pend s) (x_out s) (x_log s).
 Definition set_p_stats (v : list pentry) (s : lstate) : lstate :=
-  mkL (s_lastid s) (s_active s) (s_batches s) (d_reg s) v (p_counter s) (a_mode s) (u_sv s) (u_ovold s) (u_started s) (u_ids s) (u_flushed s) (u_leafbatch s) (u_vals s) (u_res s) (u_top s) (u_hnext s) (u_hand s) (x_out s) (x_log s).
+  mkL (s_lastid s) (s_active s) (s_batches s) (d_reg s) v (p_counter s) (a_mode s) (u_sv s) (u_ovold s) (u_started s) (u_ids s) (u_flushed s) (u_leafbatch s) (u_vals s) (u_res s) (u_top s) (u_hnext s) (u_hand s) (u_pend s) (x_out s) (x_log s).
 Definition set_p_counter (v : Z) (s : lstate) : lstate :=
-  mkL (s_lastid s) (s_active s) (s_batches s) (d_reg s) (p_stats s) v (a_mode s) (u_sv s) (u_ovold s) (u_started s) (u_ids s) (u_flushed s) (u_leafbatch s) (u_vals s) (u_res s) (u_top s) (u_hnext s) (u_hand s) (x_out s) (x_log s).
+  mkL (s_lastid s) (s_active s) (s_batches s) (d_reg s) (p_stats s) v (a_mode s) (u_sv s) (u_ovold s) (u_started s) (u_ids s) (u_flushed s) (u_leafbatch s) (u_vals s) (u_res s) (u_top s) (u_hnext s) (u_hand s) (u_pend s) (x_out s) (x_log s).
 Definition set_a_mode (v : bool) (s : lstate) : lstate :=
-  mkL (s_lastid s) (s_active s) (s_batches s) (d_reg s) (p_stats s) (p_counter s) v (u_sv s) (u_ovold s) (u_started s) (u_ids s) (u_flushed s) (u_leafbatch s) (u_vals s) (u_res s) (u_top s) (u_hnext s) (u_hand s) (x_out s) (x_log s).
+  mkL (s_lastid s) (s_active s) (s_batches s) (d_reg s) (p_stats s) (p_counter s) v (u_sv s) (u_ovold s) (u_started s) (u_ids s) (u_flushed s) (u_leafbatch s) (u_vals s) (u_res s) (u_top s) (u_hnext s) (u_hand s) (u_pend s) (x_out s) (x_log s).
 Definition set_u_sv (v : Z) (s : lstate) : lstate :=
-  mkL (s_lastid s) (s_active s) (s_batches s) (d_reg s) (p_stats s) (p_counter s) (a_mode s) v (u_ovold s) (u_started s) (u_ids s) (u_flushed s) (u_leafbatch s) (u_vals s) (u_res s) (u_top s) (u_hnext s) (u_hand s) (x_out s) (x_log s).
+  mkL (s_lastid s) (s_active s) (s_batches s) (d_reg s) (p_stats s) (p_counter s) (a_mode s) v (u_ovold s) (u_started s) (u_ids s) (u_flushed s) (u_leafbatch s) (u_vals s) (u_res s) (u_top s) (u_hnext s) (u_hand s) (u_pend s) (x_out s) (x_log s).
 Definition set_u_ovold (v : list (tname * Z)) (s : lstate) : lstate :=
-  mkL (s_lastid s) (s_active s) (s_batches s) (d_reg s) (p_stats s) (p_counter s) (a_mode s) (u_sv s) v (u_started s) (u_ids s) (u_flushed s) (u_leafbatch s) (u_vals s) (u_res s) (u_top s) (u_hnext s) (u_hand s) (x_out s) (x_log s).
+  mkL (s_lastid s) (s_active s) (s_batches s) (d_reg s) (p_stats s) (p_counter s) (a_mode s) (u_sv s) v (u_started s) (u_ids s) (u_flushed s) (u_leafbatch s) (u_vals s) (u_res s) (u_top s) (u_hnext s) (u_hand s) (u_pend s) (x_out s) (x_log s).
 Definition set_u_started (v : list tname) (s : lstate) : lstate :=
-  mkL (s_lastid s) (s_active s) (s_batches s) (d_reg s) (p_stats s) (p_counter s) (a_mode s) (u_sv s) (u_ovold s) v (u_ids s) (u_flushed s) (u_leafbatch s) (u_vals s) (u_res s) (u_top s) (u_hnext s) (u_hand s) (x_out s) (x_log s).
+  mkL (s_lastid s) (s_active s) (s_batches s) (d_reg s) (p_stats s) (p_counter s) (a_mode s) (u_sv s) (u_ovold s) v (u_ids s) (u_flushed s) (u_leafbatch s) (u_vals s) (u_res s) (u_top s) (u_hnext s) (u_hand s) (u_pend s) (x_out s) (x_log s).
 Definition set_u_ids (v : list (tname * Z)) (s : lstate) : lstate :=
-  mkL (s_lastid s) (s_active s) (s_batches s) (d_reg s) (p_stats s) (p_counter s) (a_mode s) (u_sv s) (u_ovold s) (u_started s) v (u_flushed s) (u_leafbatch s) (u_vals s) (u_res s) (u_top s) (u_hnext s) (u_hand s) (x_out s) (x_log s).
+  mkL (s_lastid s) (s_active s) (s_batches s) (d_reg s) (p_stats s) (p_counter s) (a_mode s) (u_sv s) (u_ovold s) (u_started s) v (u_flushed s) (u_leafbatch s) (u_vals s) (u_res s) (u_top s) (u_hnext s) (u_hand s) (u_pend s) (x_out s) (x_log s).
 Definition set_u_flushed (v : list (Z * Z)) (s : lstate) : lstate :=
-  mkL (s_lastid s) (s_active s) (s_batches s) (d_reg s) (p_stats s) (p_counter s) (a_mode s) (u_sv s) (u_ovold s) (u_started s) (u_ids s) v (u_leafbatch s) (u_vals s) (u_res s) (u_top s) (u_hnext s) (u_hand s) (x_out s) (x_log s).
+  mkL (s_lastid s) (s_active s) (s_batches s) (d_reg s) (p_stats s) (p_counter s) (a_mode s) (u_sv s) (u_ovold s) (u_started s) (u_ids s) v (u_leafbatch s) (u_vals s) (u_res s) (u_top s) (u_hnext s) (u_hand s) (u_pend s) (x_out s) (x_log s).
 Definition set_u_leafbatch (v : list (tname * (Z * Z))) (s : lstate) : lstate :=
-  mkL (s_lastid s) (s_active s) (s_batches s) (d_reg s) (p_stats s) (p_counter s) (a_mode s) (u_sv s) (u_ovold s) (u_started s) (u_ids s) (u_flushed s) v (u_vals s) (u_res s) (u_top s) (u_hnext s) (u_hand s) (x_out s) (x_log s).
+  mkL (s_lastid s) (s_active s) (s_batches s) (d_reg s) (p_stats s) (p_counter s) (a_mode s) (u_sv s) (u_ovold s) (u_started s) (u_ids s) (u_flushed s) v (u_vals s) (u_res s) (u_top s) (u_hnext s) (u_hand s) (u_pend s) (x_out s) (x_log s).
 Definition set_u_vals (v : list (tname * Z)) (s : lstate) : lstate :=
-  mkL (s_lastid s) (s_active s) (s_batches s) (d_reg s) (p_stats s) (p_counter s) (a_mode s) (u_sv s) (u_ovold s) (u_started s) (u_ids s) (u_flushed s) (u_leafbatch s) v (u_res s) (u_top s) (u_hnext s) (u_hand s) (x_out s) (x_log s).
+  mkL (s_lastid s) (s_active s) (s_batches s) (d_reg s) (p_stats s) (p_counter s) (a_mode s) (u_sv s) (u_ovold s) (u_started s) (u_ids s) (u_flushed s) (u_leafbatch s) v (u_res s) (u_top s) (u_hnext s) (u_hand s) (u_pend s) (x_out s) (x_log s).
 Definition set_u_res (v : list (tname * rv)) (s : lstate) : lstate :=
-  mkL (s_lastid s) (s_active s) (s_batches s) (d_reg s) (p_stats s) (p_counter s) (a_mode s) (u_sv s) (u_ovold s) (u_started s) (u_ids s) (u_flushed s) (u_leafbatch s) (u_vals s) v (u_top s) (u_hnext s) (u_hand s) (x_out s) (x_log s).
+  mkL (s_lastid s) (s_active s) (s_batches s) (d_reg s) (p_stats s) (p_counter s) (a_mode s) (u_sv s) (u_ovold s) (u_started s) (u_ids s) (u_flushed s) (u_leafbatch s) (u_vals s) v (u_top s) (u_hnext s) (u_hand s) (u_pend s) (x_out s) (x_log s).
 Definition set_u_top (v : list (Z * Z)) (s : lstate) : lstate :=
-  mkL (s_lastid s) (s_active s) (s_batches s) (d_reg s) (p_stats s) (p_counter s) (a_mode s) (u_sv s) (u_ovold s) (u_started s) (u_ids s) (u_flushed s) (u_leafbatch s) (u_vals s) (u_res s) v (u_hnext s) (u_hand s) (x_out s) (x_log s).
+  mkL (s_lastid s) (s_active s) (s_batches s) (d_reg s) (p_stats s) (p_counter s) (a_mode s) (u_sv s) (u_ovold s) (u_started s) (u_ids s) (u_flushed s) (u_leafbatch s) (u_vals s) (u_res s) v (u_hnext s) (u_hand s) (u_pend s) (x_out s) (x_log s).
 Definition set_u_hnext (v : Z) (s : lstate) : lstate :=
-  mkL (s_lastid s) (s_active s) (s_batches s) (d_reg s) (p_stats s) (p_counter s) (a_mode s) (u_sv s) (u_ovold s) (u_started s) (u_ids s) (u_flushed s) (u_leafbatch s) (u_vals s) (u_res s) (u_top s) v (u_hand s) (x_out s) (x_log s).
+  mkL (s_lastid s) (s_active s) (s_batches s) (d_reg s) (p_stats s) (p_counter s) (a_mode s) (u_sv s) (u_ovold s) (u_started s) (u_ids s) (u_flushed s) (u_leafbatch s) (u_vals s) (u_res s) (u_top s) v (u_hand s) (u_pend s) (x_out s) (x_log s).
 Definition set_u_hand (v : list (tname * Z)) (s : lstate) : lstate :=
-  mkL (s_lastid s) (s_active s) (s_batches s) (d_reg s) (p_stats s) (p_counter s) (a_mode s) (u_sv s) (u_ovold s) (u_started s) (u_ids s) (u_flushed s) (u_leafbatch s) (u_vals s) (u_res s) (u_top s) (u_hnext s) v (x_out s) (x_log s).
+  mkL (s_lastid s) (s_active s) (s_batches s) (d_reg s) (p_stats s) (p_counter s) (a_mode s) (u_sv s) (u_ovold s) (u_started s) (u_ids s) (u_flushed s) (u_leafbatch s) (u_vals s) (u_res s) (u_top s) (u_hnext s) v (u_pend s) (x_out s) (x_log s).
+Definition set_u_pend (v : list (Z * Z)) (s : lstate) : lstate :=
+  mkL (s_lastid s) (s_active s) (s_batches s) (d_reg s) (p_stats s) (p_counter s) (a_mode s) (u_sv s) (u_ovold s) (u_started s) (u_ids s) (u_flushed s) (u_leafbatch s) (u_vals s) (u_res s) (u_top s) (u_hnext s) (u_hand s) v (x_out s) (x_log s).
 Definition set_x_out (v : list event) (s : lstate) : lstate :=
-  mkL (s_lastid s) (s_active s) (s_batches s) (d_reg s) (p_stats s) (p_counter s) (a_mode s) (u_sv s) (u_ovold s) (u_started s) (u_ids s) (u_flushed s) (u_leafbatch s) (u_vals s) (u_res s) (u_top s) (u_hnext s) (u_hand s) v (x_log s).
+  mkL (s_lastid s) (s_active s) (s_batches s) (d_reg s) (p_stats s) (p_counter s) (a_mode s) (u_sv s) (u_ovold s) (u_started s) (u_ids s) (u_flushed s) (u_leafbatch s) (u_vals s) (u_res s) (u_top s) (u_hnext s) (u_hand s) (u_pend s) v (x_log s).
 Definition set_x_log (v : list response) (s : lstate) : lstate :=
-  mkL (s_lastid s) (s_active s) (s_batches s) (d_reg s) (p_stats s) (p_counter s) (a_mode s) (u_sv s) (u_ovold s) (u_started s) (u_ids s) (u_flushed s) (u_leafbatch s) (u_vals s) (u_res s) (u_top s) (u_hnext s) (u_hand s) (x_out s) v.
+  mkL (s_lastid s) (s_active s) (s_batches s) (d_reg s) (p_stats s) (p_counter s) (a_mode s) (u_sv s) (u_ovold s) (u_started s) (u_ids s) (u_flushed s) (u_leafbatch s) (u_vals s) (u_res s) (u_top s) (u_hnext s) (u_hand s) (u_pend s) (x_out s) v.
 
 Definition tname_eqb (a b : tname) : bool :=
   match a, b with
@@ -258,7 +288,7 @@ Definition bmem (b : Z * Z) (l : list (Z * Z)) : bool := existsb (pair_eqb b) l.
 (* a fresh thread: threading.local __init__ ran once in it (scheduler.py:303-310: last_id 0, then the
    first TaskScheduler() bumps it to 1), empty registry, empty profiler, asyncio mode off *)
 Definition init_lstate : lstate :=
-  mkL 1 None [] [] [] 0 false 0 [] [] [] [] [] [] [] [] 0 [] [] [].
+  mkL 1 None [] [] [] 0 false 0 [] [] [] [] [] [] [] [] 0 [] [] [] [].
 
 (* the local code asks for an access to the shared dict; answered from the replay log if the answer
    is already known, otherwise the op stops here with the request *)
@@ -318,31 +348,49 @@ Section Local.
     ev (EItem kind key idx (Z.of_nat (length items)) id) ;;;
     ret (kind, idx).
 
-  (* AsyncTask.__init__ (async_task.py:58-86): creator = active task, _id *)
+  (* AsyncTask.__init__ (async_task.py:58-86): creator = active task, _id.  u_pend remembers the _id of
+     every task object this thread made (by identity), for tasks that outlive the computation that
+     created them (un-awaited deduplicated calls) *)
   Definition new_task (t : tname) : M unit :=
     id <- next_id ;;
     modify (fun s => set_u_ids ((t, id) :: u_ids s)
-                       (set_u_hand ((t, u_hnext s) :: u_hand s) (set_u_hnext (u_hnext s + 1) s))).
+                       (set_u_hand ((t, u_hnext s) :: u_hand s)
+                          (set_u_pend ((u_hnext s, id) :: u_pend s) (set_u_hnext (u_hnext s + 1) s)))) ;;;
+    ev (ENew t id).
 
   (* the identity of the task object, as stored in the shared dict *)
   Definition handle (t : tname) (s : lstate) : Z :=
     match tget t (u_hand s) with Some h => h | None => -1 end.
 
   Definition comp_name (c : comp) : tname :=
-    match c with Node n _ _ => TN n | Leaf n _ _ _ => TN n | DLeaf k x => TD k x end.
+    match c with Node n _ _ => TN n | Leaf n _ _ _ => TN n | DLeaf k x => TD k x | Spec k x => TD k x end.
+
+  (* the children a node yields (a Spec child is created but not yielded) *)
+  Definition is_spec (c : comp) : bool := match c with Spec _ _ => true | _ => false end.
+  Definition awaited (l : list comp) : list comp := filter (fun c => negb (is_spec c)) l.
 
   (* what the parent's body does for one child: fn.asynq(...);
      tools.py:357-383 DeduplicateDecorator.asynq: lookup with the current thread in the key, create and
      register on a miss *)
+  (* a hit returns the registered task object (tools.py:364, 379-383; `task.running` is false for a task
+     that is not executing right now).  It may have been created by an earlier computation or an earlier
+     top-level call of this thread: the thread knows the object, hence its _id *)
+  Definition mk_dedup (k x : Z) : M unit :=
+    r <- ask (RqGet [k; x] FN_DLEAF) ;;
+    match r with
+    | RsFound h =>
+        s <- get ;;
+        let id := match zget h (u_pend s) with Some i => i | None => 0 end in
+        modify (fun s => set_u_hand ((TD k x, h) :: u_hand s) (set_u_ids ((TD k x, id) :: u_ids s) s)) ;;;
+        ev (EOld (TD k x) id)
+    | _ => new_task (TD k x) ;;; s <- get ;;
+           _ <- ask (RqSet [k; x] FN_DLEAF (handle (TD k x) s)) ;; ret tt
+    end.
+
   Definition mk (c : comp) : M unit :=
     match c with
-    | DLeaf k x =>
-        r <- ask (RqGet [k; x] FN_DLEAF) ;;
-        match r with
-        | RsFound _ => ret tt
-        | _ => new_task (TD k x) ;;; s <- get ;;
-               _ <- ask (RqSet [k; x] FN_DLEAF (handle (TD k x) s)) ;; ret tt
-        end
+    | DLeaf k x => mk_dedup k x
+    | Spec k x => mk_dedup k x
     | _ => new_task (comp_name c)
     end.
 
@@ -368,7 +416,7 @@ Section Local.
     | _ => ret tt
     end ;;;
     s <- get ;;
-    prof_append (PTask (match tget t (u_ids s) with Some i => i | None => 0 end)).
+    prof_append (PTask t (match tget t (u_ids s) with Some i => i | None => 0 end)).
 
   (* scheduler.py:180-204 _continue_with_task: active_task := task around task._continue() *)
   Definition with_active {A} (t : tname) (m : M A) : M A :=
@@ -418,7 +466,9 @@ Section Local.
     match t with
     | Leaf n c kind key => visit_leaf (TN n) c kind key
     | DLeaf kind key => visit_leaf (TD kind key) CNone kind key
-    | Node n c ch =>
+    | Spec _ _ => ret tt                      (* never yielded, so never scheduled *)
+    | Node n c all =>
+        let ch := awaited all in
         let t := TN n in
         let blocked := fun s => existsb (fun c => negb (is_done (comp_name c) s)) ch in
         let finish := with_active t (probe t 1 ;;; ctx_pause t c ;;; probe t 2 ;;;
@@ -427,7 +477,7 @@ Section Local.
         if is_done t s then ret tt else
         let fresh := negb (tmem t (u_started s)) in
         (if fresh then
-           with_active t (probe t 0 ;;; ctx_resume t c ;;; mk_all ch ;;;
+           with_active t (probe t 0 ;;; ctx_resume t c ;;; mk_all all ;;;
                           modify (fun s => set_u_started (t :: u_started s) s) ;;;
                           (* yield []: no dependencies, AsyncTask._continue goes on in the same call *)
                           match ch with
@@ -440,7 +490,7 @@ Section Local.
         if negb fresh && negb (blocked s) then ctx_resume t c ;;; finish
         else
           (if fresh then ret tt else ctx_resume t c) ;;;
-          visit_list ch ;;;
+          visit_list all ;;;                  (* a Spec child is skipped by `visit` *)
           s <- get ;;
           if blocked s then ctx_pause t c else finish
     end.
@@ -521,7 +571,8 @@ Section Local.
         | Some (idx, _ :: _) => do_flush true (kind, idx)
         | _ => ev (ENoFlush kind)
         end
-    | ORun c =>
+    | ORun c0 =>
+        let c := match c0 with Spec k x => DLeaf k x | _ => c0 end in
         modify (fun s => set_u_ovold [] (set_u_started [] (set_u_ids [] (set_u_leafbatch []
                           (set_u_vals [] (set_u_res [] (set_u_hand [] s))))))) ;;;
         mk c ;;;
@@ -532,6 +583,9 @@ Section Local.
     | OProf =>                                       (* profiler.py:15-18, 25-27 *)
         s <- get ;;
         ev (EProf (p_stats s)) ;;; modify (fun s => set_p_counter 0 (set_p_stats [] s))
+    | OPReset =>                                     (* profiler.py:25-27 *)
+        modify (fun s => set_p_counter 0 (set_p_stats [] s))
+    | OSpec kind key => mk_dedup kind key            (* creator = None; the task is dropped *)
     | OSched =>
         s <- get ;;
         ev (ESched (s_lastid s) 0 (Z.of_nat (length (s_batches s))) (s_active s))
@@ -588,16 +642,31 @@ Definition trun : list tid -> proc -> proc := run next_request advance.
 
 (* enough steps to finish any program of the case: every op makes at most 4 accesses per task *)
 Definition op_steps (o : op) : nat :=
-  match o with ORun c => (4 * comp_size c + 2)%nat | _ => 1%nat end.
+  match o with ORun c => (4 * comp_size c + 2)%nat | OSpec _ _ => 3%nat | _ => 1%nat end.
 Definition prog_steps (p : list op) : nat := (fold_right (fun o acc => op_steps o + acc) 2 p)%nat.
 
+(* Thread generations: the threads of a case are started in groups; a group is started only after every
+   thread of the previous group has finished (threading.Thread.join), so a later thread may be given the
+   OS ident of a dead one — its Thread object, the key component (tools.py:353), is still a different one.
+   `sizes` = group sizes in thread-id order, `schs` = one arbitrary interleaving per group (ids outside
+   the group are dropped), each followed by enough steps for every thread of the group to finish. *)
+Fixpoint gen_schedule (progs : list (list op)) (start : nat) (sizes : list nat) (schs : list (list nat)) : list nat :=
+  match sizes with
+  | [] => []
+  | n :: r =>
+      let ids := seq start n in
+      filter (fun i => existsb (Nat.eqb i) ids) (hd [] schs)
+      ++ flat_map (fun i => repeat i (prog_steps (nth i progs []))) ids
+      ++ gen_schedule progs (start + n) r (tl schs)
+  end.
+
 (* what the correspondence compares: per thread, the events of each op,
-   (a) after the given interleaving followed by letting every thread finish, (b) when run alone *)
-Definition run_case (perf : bool) (progs : list (list op)) (sch : list nat)
+   (a) after the generation-wise interleaving (then letting every thread finish), (b) when run alone *)
+Definition run_case (perf : bool) (progs : list (list op)) (sizes : list nat) (schs : list (list nat))
   : list (list (list event)) * list (list (list event)) :=
   let n := length progs in
   let g0 := init_global perf progs in
   let fin := flat_map (fun i => repeat i (prog_steps (nth i progs []))) (seq 0 n) in
-  let g := trun (sch ++ fin) g0 in
+  let g := trun (gen_schedule progs 0 sizes schs ++ fin) g0 in
   (map (fun i => l_trace (g_loc g i)) (seq 0 n),
    map (fun i => l_trace (g_loc (trun (repeat i (prog_steps (nth i progs []))) g0) i)) (seq 0 n)).
